@@ -44,8 +44,12 @@ def _child(conn, kind, payload):
     try:
         conn.send(r)
     except Exception:
-        conn.send({'unit': 'job', 'crash': 'result not picklable: ' + traceback.format_exc()[-400:], 'verdicts': [], 'ground': [],
-                   'error': ('crash', 'result not picklable')})
+        try:
+            import json
+            conn.send(json.loads(json.dumps(r, default=str)))        # a native value (a closure, a match object) inside a replay record: sent as text
+        except Exception:
+            conn.send({'unit': 'job', 'crash': 'result not picklable: ' + traceback.format_exc()[-400:], 'verdicts': [], 'ground': [],
+                       'error': ('crash', 'result not picklable')})
     conn.close()
 
 
